@@ -451,6 +451,13 @@ template <int K, int LEN> static V *mk_leaf(Slot &slot, MN &n) {   // a scalar o
         if ((sel & 1) == 0) { n.bits = x; return new (raw) V(b2d(x)); }
         return new (raw) V(T::Double);
     }
+    if (K == 30) {                       // a nested array with a hole: [Undefined, unsigned]  (for Compress)
+        n.k = T::Array; n.cnt = 2; n.holes = 1;
+        V *v = new (raw) V(T::Array);
+        *v += V();
+        *v += x;
+        return v;
+    }
     // String
     n.len = LEN;
     for (unsigned i = 0; i < LEN; ++i) n.s[i] = c[i];
@@ -858,6 +865,10 @@ extern "C" void h_step() {
             vf_assert(v->GetArray()->Capacity() == m.n.cnt, 340);   // no spare room left
         }
         if (m.n.k == T::Object) m.n.holes = 0;                      // removed slots are dropped
+        for (unsigned i = 0; i < 6; ++i) {                          // nested containers are compressed as well
+            if (m.e[i].k == T::Array) { m.e[i].cnt -= m.e[i].holes; m.e[i].holes = 0; }
+            if (m.o[i].v.k == T::Array) { m.o[i].v.cnt -= m.o[i].v.holes; m.o[i].v.holes = 0; }
+        }
     }
 #elif OP == OP_REMOVE_KEY
     {
